@@ -272,54 +272,7 @@ func runC05(c *eng.Ctx) {
 	})
 
 	// ---- 3c. index page number and in-page slot are computed from the same sequence --------------------------------
-	c.Rule("SYMMETRY", "pkg/queue.queue{page = s / N, slot = s % N for one s}", func() {
-		nv, ok := p.ConstInt64("pkg/queue", "indexItemsPerPage")
-		if !ok {
-			c.Undecided("constant pkg/queue.indexItemsPerPage not found")
-		}
-		total := 0
-		for _, fk := range []string{qT + ".Get", qT + ".GC", qPersist, qT + ".initDataPageIndex"} {
-			f := c.Fn(fk)
-			var quo, rem []*ssa.BinOp
-			for _, b := range eng.BlocksT(f) {
-				for _, in := range b.Instrs {
-					bo, ok := in.(*ssa.BinOp)
-					if !ok {
-						continue
-					}
-					if k, isC := eng.ConstInt(bo.Y); !isC || k != nv {
-						continue
-					}
-					switch bo.Op {
-					case token.QUO:
-						quo = append(quo, bo)
-					case token.REM:
-						rem = append(rem, bo)
-					}
-				}
-			}
-			c.Check(len(quo) >= 1 && len(rem) >= 1, fk+":page-and-slot-computed", nil, f, fk+" computes an index page (s / indexItemsPerPage) and a slot (s % indexItemsPerPage)", fmt.Sprintf("%d divisions, %d remainders", len(quo), len(rem)))
-			for i, qd := range quo {
-				for j, rm := range rem {
-					total++
-					if fk == qT+".initDataPageIndex" {
-						base, k := eng.SplitConstOffset(qd.X)
-						isApp := eng.DependsOn(base, func(x ssa.Value) bool {
-							in, ok := x.(ssa.Instruction)
-							return ok && eng.LoadField(qT+".appendedSeq")(p, in)
-						})
-						c.Check(isApp && k == 0, fmt.Sprintf("%s:entry-of-exactly-appended[%d]", fk, i), qd, f, "on reopen the cursor is restored from the entry of the last appended sequence itself (not a neighbour)", fmt.Sprintf("uses %s (+%d)", p.Desc(base), k))
-					}
-					c.Check(eng.SameValue(qd.X, rm.X), fmt.Sprintf("%s:same-sequence[%d,%d]", fk, i, j), rm, f,
-						"the index page and the slot inside it are computed from the same sequence value (an entry is read from / written to the page that holds it)",
-						"page of "+p.Desc(qd.X)+" but slot of "+p.Desc(rm.X))
-				}
-			}
-		}
-		if total < 4 {
-			c.Undecided("expected >= 4 page/slot pairs, found %d", total)
-		}
-	})
+	c.Rule("SYMMETRY", "pkg/queue.queue{page = s / N, slot = s % N for one s}", func() { pageSlotOfOneSequence(c) })
 
 	// ---- 3d. the cached index page is the page of the sequence being written ----------------------------------------------------------
 	c.Rule("GUARD", qPersist+"{cached index page = page of the sequence}", func() { cachedIndexPageRule(c) })
@@ -931,5 +884,56 @@ func cachedIndexPageRule(c *eng.Ctx) {
 		c.Check(!stale, fmt.Sprintf("entry-into-the-page-of-its-sequence[%d]", i), pu.Instr, f,
 			"an index entry is written into the cached index page only when the cached page index EQUALS seq / indexItemsPerPage, or right after the cache was switched to that page (the appended sequence can also move backwards: SetAppendedSeq)",
 			"a path reaches the write with a cached page that was neither compared equal to the page of the sequence nor switched to it")
+	}
+}
+
+func pageSlotOfOneSequence(c *eng.Ctx) {
+	p := c.P
+	_ = p
+	nv, ok := p.ConstInt64("pkg/queue", "indexItemsPerPage")
+	if !ok {
+		c.Undecided("constant pkg/queue.indexItemsPerPage not found")
+	}
+	total := 0
+	for _, fk := range []string{qT + ".Get", qT + ".GC", qPersist, qT + ".initDataPageIndex"} {
+		f := c.Fn(fk)
+		var quo, rem []*ssa.BinOp
+		for _, b := range eng.BlocksT(f) {
+			for _, in := range b.Instrs {
+				bo, ok := in.(*ssa.BinOp)
+				if !ok {
+					continue
+				}
+				if k, isC := eng.ConstInt(bo.Y); !isC || k != nv {
+					continue
+				}
+				switch bo.Op {
+				case token.QUO:
+					quo = append(quo, bo)
+				case token.REM:
+					rem = append(rem, bo)
+				}
+			}
+		}
+		c.Check(len(quo) >= 1 && len(rem) >= 1, fk+":page-and-slot-computed", nil, f, fk+" computes an index page (s / indexItemsPerPage) and a slot (s % indexItemsPerPage)", fmt.Sprintf("%d divisions, %d remainders", len(quo), len(rem)))
+		for i, qd := range quo {
+			for j, rm := range rem {
+				total++
+				if fk == qT+".initDataPageIndex" {
+					base, k := eng.SplitConstOffset(qd.X)
+					isApp := eng.DependsOn(base, func(x ssa.Value) bool {
+						in, ok := x.(ssa.Instruction)
+						return ok && eng.LoadField(qT+".appendedSeq")(p, in)
+					})
+					c.Check(isApp && k == 0, fmt.Sprintf("%s:entry-of-exactly-appended[%d]", fk, i), qd, f, "on reopen the cursor is restored from the entry of the last appended sequence itself (not a neighbour)", fmt.Sprintf("uses %s (+%d)", p.Desc(base), k))
+				}
+				c.Check(eng.SameValue(qd.X, rm.X), fmt.Sprintf("%s:same-sequence[%d,%d]", fk, i, j), rm, f,
+					"the index page and the slot inside it are computed from the same sequence value (an entry is read from / written to the page that holds it)",
+					"page of "+p.Desc(qd.X)+" but slot of "+p.Desc(rm.X))
+			}
+		}
+	}
+	if total < 4 {
+		c.Undecided("expected >= 4 page/slot pairs, found %d", total)
 	}
 }
